@@ -1,5 +1,5 @@
 import Hls.Client.TimeConvLemmas
-import Hls.Client.Pacing
+import Hls.Client.PacingLemmas
 /-!
 # C10 — Client delivers every sample of a well-formed stream with normalized time
 
@@ -438,6 +438,13 @@ open Hls.Client.Pacing in
 theorem c10_pace_exact (t : Int) (a : Arrival) (h : t + a.gap < a.dur)
     (hc : a.dur - (t + a.gap) ≤ clientMaxDTSRTCDiff) (ho : a.over = 0) : run t [a] = some [a.dur] :=
   run_exact t a h hc ho
+
+open Hls.Client.Pacing in
+/-- closed form for exact timers: delivery = max(DTS, arrival); lateness is never carried over to later units -/
+theorem c10_pace_closed_form (t : Int) (a : Arrival) (rest : List Arrival) (ho : a.over = 0)
+    (hc : a.dur - (t + a.gap) ≤ clientMaxDTSRTCDiff) :
+    run t (a :: rest) = (run (max a.dur (t + a.gap)) rest).map (max a.dur (t + a.gap) :: ·) :=
+  run_cons_exact t a rest ho hc
 
 open Hls.Client.Pacing in
 /-- non-vacuity: 25 fps units, the second arrives late, the third early with a 1 ms overshoot -/
